@@ -147,21 +147,22 @@ theorem propagateConstraintNoCheck_dim (cfg : Cfg) (b : Box) (c : Con) :
   · split_ifs <;> rfl
   · exact foldl_propagateStep_dim ..
 
-/-- `propagate_constraint_no_check` keeps the members that satisfy the constraint.  `hnt`: the
-constraint is not the tautology `0 == 0` (on which the code calls `set_empty()`). -/
+/-- `propagate_constraint_no_check` keeps the members that satisfy the constraint (the trivial case of the
+repaired tree: no exclusion of the tautology `0 == 0` any more). -/
 theorem propagateConstraintNoCheck_sound {cfg : Cfg} (hS : cfg.Sound) {b : Box} {c : Con} {x : Nat → Rat}
     (hwf : c.e.WF b.dim) (hex : CoeffsExact cfg.TR c.e)
-    (hnt : ¬ (c.e.terms = [] ∧ c.ty = .eq ∧ c.e.inhom = 0))
     (hx : b.mem cfg.p x) (hc : c.holds x) : (propagateConstraintNoCheck cfg b c).mem cfg.p x := by
   unfold propagateConstraintNoCheck
   split
   · rename_i ht
     have he : c.e.eval x = (c.e.inhom : Rat) := by rw [LinExpr.eval_eq_terms, ht]; simp
-    have hcond : ¬ ((decide (c.e.inhom < 0) || (c.e.inhom == 0 && c.ty != CType.ge)) = true) := by
+    have hcond : ¬ ((decide (c.e.inhom < 0) || (c.e.inhom == 0 && c.ty == CType.gt)
+        || (decide (c.e.inhom > 0) && c.ty == CType.eq)) = true) := by
       unfold Con.holds at hc
       rw [he] at hc
       cases hty : c.ty <;> rw [hty] at hc <;> simp only at hc
-      · exact absurd ⟨ht, hty, by exact_mod_cast hc⟩ hnt
+      · have : c.e.inhom = 0 := by exact_mod_cast hc
+        simp [this]
       · have : 0 ≤ c.e.inhom := by exact_mod_cast hc
         simp; omega
       · have : 0 < c.e.inhom := by exact_mod_cast hc
@@ -272,15 +273,14 @@ theorem foldl_propagate_dim (cfg : Cfg) (cs : List Con) (b : Box) :
 
 theorem foldl_propagate_sound {cfg : Cfg} (hS : cfg.Sound) {x : Nat → Rat} (cs : List Con) (b : Box)
     (hwf : ∀ c ∈ cs, c.e.WF b.dim) (hex : ∀ c ∈ cs, CoeffsExact cfg.TR c.e)
-    (hnt : ∀ c ∈ cs, ¬ (c.e.terms = [] ∧ c.ty = .eq ∧ c.e.inhom = 0))
     (hx : b.mem cfg.p x) (hc : ∀ c ∈ cs, c.holds x) :
     (cs.foldl (propagateConstraintNoCheck cfg) b).mem cfg.p x := by
   induction cs generalizing b with
   | nil => exact hx
   | cons c cs ih =>
     rw [List.foldl_cons]
-    apply ih _ _ (fun c' h' => hex c' (List.mem_cons_of_mem _ h')) (fun c' h' => hnt c' (List.mem_cons_of_mem _ h'))
-      (propagateConstraintNoCheck_sound hS (hwf c (by simp)) (hex c (by simp)) (hnt c (by simp)) hx (hc c (by simp)))
+    apply ih _ _ (fun c' h' => hex c' (List.mem_cons_of_mem _ h'))
+      (propagateConstraintNoCheck_sound hS (hwf c (by simp)) (hex c (by simp)) hx (hc c (by simp)))
       (fun c' h' => hc c' (List.mem_cons_of_mem _ h'))
     intro c' h'
     rw [propagateConstraintNoCheck_dim]; exact hwf c' (List.mem_cons_of_mem _ h')
@@ -301,13 +301,12 @@ theorem propagateConstraintsNoCheck_dim (cfg : Cfg) (cs : List Con) (maxIter fue
 theorem propagateConstraintsNoCheck_sound {cfg : Cfg} (hS : cfg.Sound) {x : Nat → Rat} (cs : List Con)
     (maxIter fuel num : Nat) (b : Box)
     (hwf : ∀ c ∈ cs, c.e.WF b.dim) (hex : ∀ c ∈ cs, CoeffsExact cfg.TR c.e)
-    (hnt : ∀ c ∈ cs, ¬ (c.e.terms = [] ∧ c.ty = .eq ∧ c.e.inhom = 0))
     (hx : b.mem cfg.p x) (hc : ∀ c ∈ cs, c.holds x) :
     (propagateConstraintsNoCheck cfg cs maxIter fuel num b).mem cfg.p x := by
   induction fuel generalizing num b with
   | zero => exact hx
   | succ fuel ih =>
-    have h1 := foldl_propagate_sound hS cs b hwf hex hnt hx hc
+    have h1 := foldl_propagate_sound hS cs b hwf hex hx hc
     unfold propagateConstraintsNoCheck
     simp only
     split_ifs
@@ -328,12 +327,11 @@ theorem propagateConstraints_dim (cfg : Cfg) (fuel : Nat) (b : Box) (cs : List C
 constraint of the list is the tautology `0 == 0` (the iterator of `Constraint_System` skips them) -/
 theorem propagateConstraints_sound {cfg : Cfg} (hS : cfg.Sound) (fuel maxIter : Nat) {b : Box} {cs : List Con}
     {x : Nat → Rat} (hwf : ∀ c ∈ cs, c.e.WF b.dim) (hex : ∀ c ∈ cs, CoeffsExact cfg.TR c.e)
-    (hnt : ∀ c ∈ cs, ¬ (c.e.terms = [] ∧ c.ty = .eq ∧ c.e.inhom = 0))
     (hx : b.mem cfg.p x) (hc : ∀ c ∈ cs, c.holds x) : (propagateConstraints cfg fuel b cs maxIter).mem cfg.p x := by
   unfold propagateConstraints
   split_ifs
   · exact hx
-  · exact propagateConstraintsNoCheck_sound hS cs maxIter fuel 0 b hwf hex hnt hx hc
+  · exact propagateConstraintsNoCheck_sound hS cs maxIter fuel 0 b hwf hex hx hc
 
 theorem propagateConstraint_dim (cfg : Cfg) (b : Box) (c : Con) : (propagateConstraint cfg b c).dim = b.dim := by
   unfold propagateConstraint
@@ -343,12 +341,11 @@ theorem propagateConstraint_dim (cfg : Cfg) (b : Box) (c : Con) : (propagateCons
 
 theorem propagateConstraint_sound {cfg : Cfg} (hS : cfg.Sound) {b : Box} {c : Con} {x : Nat → Rat}
     (hwf : c.e.WF b.dim) (hex : CoeffsExact cfg.TR c.e)
-    (hnt : ¬ (c.e.terms = [] ∧ c.ty = .eq ∧ c.e.inhom = 0))
     (hx : b.mem cfg.p x) (hc : c.holds x) : (propagateConstraint cfg b c).mem cfg.p x := by
   unfold propagateConstraint
   split_ifs
   · exact hx
-  · exact propagateConstraintNoCheck_sound hS hwf hex hnt hx hc
+  · exact propagateConstraintNoCheck_sound hS hwf hex hx hc
 
 /-! ## the hypotheses are satisfiable -/
 
